@@ -278,6 +278,19 @@ func exitPathFamily() []tcase {
 						p.Main = append(blk, echo("done"))
 					}
 					out = append(out, tcase{fmt.Sprintf("path:%s/%s/fin=%s/%s", path, h, fin, con), p})
+					if h == "same" && throws && path != "rethrow" {
+						// the same program with the matching catch clause's body emptied: the
+						// exception is still handled (swallowed), later clauses are not tried
+						q := &gen.Program{Features: map[string]bool{"try": true, "catch.empty": true}, Classes: classes, Funcs: p.Funcs, Main: p.Main}
+						for f := range p.Features {
+							q.Features[f] = true
+						}
+						emptied := *inner
+						emptied.Catches = append([]gen.Catch{}, inner.Catches...)
+						emptied.Catches[1].Body = nil
+						swapTry(q, inner, &emptied)
+						out = append(out, tcase{fmt.Sprintf("path:%s/%s/fin=%s/%s/emptycatch", path, h, fin, con), q})
+					}
 				}
 			}
 		}
@@ -373,4 +386,45 @@ func parseRejects(path string) (rej bool) {
 	_, p := ori.NewVM()
 	_, acl := p.ParseFile(path)
 	return acl != nil
+}
+
+// swapTry returns (in q) a deep-enough copy of the program in which the try statement
+// `old` is replaced by `nw`; every statement list on the path is copied, so the original
+// program is left untouched.
+func swapTry(q *gen.Program, old, nw *gen.Try) {
+	var rw func(ss []gen.Stmt) []gen.Stmt
+	rw = func(ss []gen.Stmt) []gen.Stmt {
+		out := make([]gen.Stmt, len(ss))
+		for i, s := range ss {
+			switch s := s.(type) {
+			case *gen.Try:
+				if s == old {
+					out[i] = nw
+					continue
+				}
+				c := *s
+				c.Body = rw(s.Body)
+				out[i] = &c
+			case *gen.For:
+				c := *s
+				c.Body = rw(s.Body)
+				out[i] = &c
+			case *gen.Foreach:
+				c := *s
+				c.Body = rw(s.Body)
+				out[i] = &c
+			default:
+				out[i] = s
+			}
+		}
+		return out
+	}
+	q.Main = rw(q.Main)
+	var fs []*gen.Func
+	for _, f := range q.Funcs {
+		c := *f
+		c.Body = rw(f.Body)
+		fs = append(fs, &c)
+	}
+	q.Funcs = fs
 }
